@@ -79,16 +79,15 @@ def run_case(case) -> Result:
                 bad("relation-broken", "AROONOSC=up-down", i, f"osc {o} up {u} down {dn}")
         elif cls == "ADX":
             ps = kw.get("period_signal") or p
-            rng("ADX", i, v.get("ADX"), 0, 100, d + ps * 1e-4)
+            rng("ADX", i, v.get("ADX"), 0, 100, d)
             for f in ("DM_Plus", "DM_Neg"):
                 if v.get(f) is not None and v[f] < -d:
                     bad("out-of-range", f, i, f"{f}={v[f]!r} < 0")
         elif cls == "TSI":
-            sp = kw.get("smooth_period") or (int(p / 2) + (p % 2 > 0))
-            den = c.sub_indicators.get(f"{name}_abs_second")
-            e2 = 0.5e-4 * (p + 1) / 2 + 0.5e-4 * (sp + 1) / 2
-            slack = d + (200 * e2 / den if den and den > 2 * e2 else float("inf"))
-            rng("TSI", i, v, -100, 100, slack)
+            # numerator and denominator go through the same smoothing and the same rounding, and rounding is
+            # monotone and symmetric, so |double-smoothed momentum| <= double-smoothed |momentum| holds exactly
+            # at every stage: the only slack is the rounding of the reading itself
+            rng("TSI", i, v, -100, 100, d)
         elif cls == "TR":
             if v < (c.high - c.low) - d or v < -d:
                 bad("relation-broken", "TR>=high-low>=0", i, f"TR {v} high-low {c.high - c.low}")
